@@ -9,19 +9,26 @@ G  spec/mpi/SmpiShared.tla defines, for a sender layout, a receiver layout, two 
    smpi/async-small-thresh and smpi/send-is-detached-thresh; SimGrid refuses eager without detached) x
    Send/Isend/Ssend x who posts first, and prints which message bytes arrived.  Python only checks  required (TLC)  subset-of  arrived (implementation).
 
-Finding on the unchanged tree (KNOWN_FINDINGS.jsonl, proposed/fix-C35-shift-underflow.diff): a message that starts strictly
-inside a private block loses that block (size_t underflow in shift_and_frame_private_blocks).
+Findings on the unchanged tree (KNOWN_FINDINGS.jsonl, reported by class):
+  (1) a message that starts strictly inside a private block loses that block: size_t underflow in
+      shift_and_frame_private_blocks (proposed/fix-C35-shift-underflow.diff);
+  (2) when the last shared block ends at the end of an allocation inside a partial page, smpi_shared_malloc_partial
+      folds the bytes before that block too: private bytes alias across ranks (proposed/fix-C35-tail-page-fold.diff).
 
-Mutations tried (tools/mutbuild.sh, quick tier) -- see the end of this file's docstring in the final report:
-  M1 merge_private_blocks: block end - 1 (one byte too many skipped at a private/shared boundary)      -> caught
-  M2 memcpy_private copies block_end - block_begin - 1 bytes                                           -> caught
-  M3 smpi_shared_malloc_partial registers the last private block as (stop, size - 1)                   -> caught
+Mutations (single-object rebuilds against a copy of the instrumented build, quick tier):
+  M1 merge_private_blocks: end of the merged block - 1 (one private byte too many skipped at a boundary)  -> caught
+  M3 smpi_shared_malloc_partial registers inner private blocks one byte late (begin + 1)                  -> caught
+  Fixes: with proposed/fix-C35-shift-underflow.diff + fix-C35-tail-page-fold.diff applied: 0 failing case-runs of 41460.
 """
 import json, os
 import vlib, drivers
 import smpi_rt_common as R
 
 LEVEL = "exploration"
+META = {
+    "text": 'SmpiShared.tla defines which bytes of a message must arrive (private in both the send and the receive allocation). TLC enumerates every case on a byte grid (all layouts with a bounded number of shared blocks, plain buffers, all offsets and sizes), proves the interval form equal to the byte-wise definition on each, and evaluates the same grid scaled to pages plus seeded random byte/page-scale cases; harness/mpi_shared.c replays each case with SMPI_PARTIAL_SHARED_MALLOC under rendez-vous, detached and eager protocol settings with Send/Isend/Ssend and early/late posting, and the check verifies required subset-of arrived. exploration: the case space is enumerated/sampled and each case is decided against the TLC-computed expectation; no state machine is involved.',
+    "note": 'Trusted: TLC; the byte patterns of the driver (sender >= 0x80, receiver < 0x80); bytes outside the required set are deliberately not judged. Two genuine defects of smpi_shared.cpp found (offset inside a private block: size_t underflow; shared tail in a partial page folds private bytes) and recorded as known findings by class: other defects confined to those two classes would be masked until the proposed fixes are applied (with them the check reports no failing case).',
+    "technique": 'TLC-generated cases with expected byte sets (SmpiSharedGen / SmpiSharedEval) replayed into SMPI (mpi_shared driver), subset comparison'}
 DRIVERS = {"mpi_shared": (["mpi_shared.c"], "c-smpi", [])}
 
 CFGS = [
